@@ -65,6 +65,15 @@ func gapCorpus() []*CaseSpec {
 		return Step{Kind: k, Op: &spb.AFTOperation{Id: id, NetworkInstance: ni, Op: op, Entry: &spb.AFTOperation_Ipv4{Ipv4: &aftpb.Afts_Ipv4EntryKey{Prefix: pfx, Ipv4Entry: &aftpb.Afts_Ipv4Entry{NextHopGroup: uv(g)}}}}}
 	}
 	with := func(x, y Step) Step { x.Gap = &y; return x }
+	// a prefix in the second instance that points at a group of the first one
+	other := p.NIs[1]
+	xv4 := func(id uint64, pfx string, g uint64, op spb.AFTOperation_Operation) Step {
+		s := v4(id, pfx, g, op)
+		s.Op.NetworkInstance = other
+		s.Op.Entry.(*spb.AFTOperation_Ipv4).Ipv4.Ipv4Entry.NextHopGroupNetworkInstance = sv(ni)
+		return s
+	}
+	addOther := Step{Kind: "addni", NI: other}
 	A, D := spb.AFTOperation_ADD, spb.AFTOperation_DELETE
 	cfg := func(fwd bool) *RibCfg { return &RibCfg{Fwd: fwd, Pools: DefaultPools()} }
 	type hc struct {
@@ -86,6 +95,11 @@ func gapCorpus() []*CaseSpec {
 		{"del-nhg|add-v4/nofwd", false, []Step{nh(1, 1, A), nhg(2, 1, 1, A), with(nhg(3, 1, 1, D), v4(4, "1.0.0.0/8", 1, A)), nhg(5, 1, 1, D), nh(6, 1, D)}},
 		// a next-hop that resolves a held group, overlapped by the group's DELETE
 		{"add-nh-cascade|del-nhg", true, []Step{nhg(1, 1, 1, A), with(nh(2, 1, A), nhg(3, 1, 1, D)), nhg(4, 1, 1, D), nh(5, 1, D)}},
+		// the same across instances: the operations touch different instances, yet they are linked by
+		// the prefix's reference to a group of the other instance (and by the RIB-wide held list)
+		{"x-ni/add-v4|del-nhg", true, []Step{addOther, nh(1, 1, A), nhg(2, 1, 1, A), with(xv4(3, "1.0.0.0/8", 1, A), nhg(4, 1, 1, D)), xv4(5, "1.0.0.0/8", 1, D), nhg(6, 1, 1, D), nh(7, 1, D)}},
+		{"x-ni/del-nhg|add-v4", true, []Step{addOther, nh(1, 1, A), nhg(2, 1, 1, A), with(nhg(3, 1, 1, D), xv4(4, "1.0.0.0/8", 1, A)), xv4(5, "1.0.0.0/8", 1, D), nhg(6, 1, 1, D), nh(7, 1, D)}},
+		{"x-ni/add-nhg-releases-held-v4|del-v4", true, []Step{addOther, nh(1, 1, A), xv4(2, "1.0.0.0/8", 1, A), with(nhg(3, 1, 1, A), xv4(4, "1.0.0.0/8", 1, D)), xv4(5, "1.0.0.0/8", 1, D), nhg(6, 1, 1, D), nh(7, 1, D)}},
 		// DELETE of a next-hop overlapped by the ADD of a group listing it
 		{"del-nh|add-nhg", true, []Step{nh(1, 1, A), with(nh(2, 1, D), nhg(3, 1, 1, A)), nhg(4, 1, 1, D), nh(5, 1, D)}},
 	}
